@@ -14,7 +14,7 @@ import core
 LEGS = [(0, 0), (1, 0), (3, 4), (0, -1), (-4, 3), (1000, 0), (0, 2), (-6, -8)]
 
 
-def num(v, maxden):
+def num(v, maxden, tol=1e-9):
     try:
         v = float(v)
     except Exception:
@@ -24,17 +24,23 @@ def num(v, maxden):
     if math.isinf(v):
         return [3, 0, 1]
     f = Fraction(v).limit_denominator(maxden)
-    if abs(float(f) - v) > 1e-9 * max(1.0, abs(v)):
+    if abs(float(f) - v) > tol * max(1.0, abs(v)):
         return [3, 0, 1]
     return [1, f.numerator, f.denominator]
 
 
-def call(pts, ts):
+def call(pts, ts, unit=1.0, day=(2020, 6, 15), coarse=False):
+    """ts are in TICKS of `unit' seconds (1 s, or 1 ms); speeds are reported per tick.  With a 2020 date a 1 ms gap is known
+    to the float clock only to 2e-4 (coarse = only the NaN pattern is judged); around 1970 the clock is exact to 1e-8."""
     import tk
     from tracklib.algo.cinematics import computeAbsCurv
     e = {"ev": "kin", "pts": [list(p) for p in pts], "ts": list(ts), "raised": False, "abs": [], "abs2": [], "abs3": [], "speed": [], "speed2": [],
-         "pre": [], "post": []}
-    tr = tk.mk_track([p[0] for p in pts], [p[1] for p in pts], [float(k) for k in range(len(pts))], ts)
+         "pre": [], "post": [], "coarse": coarse, "tick_ms": int(round(unit * 1000))}
+    tol = 1e-9 if unit == 1.0 else 1e-6
+    if unit == 1.0:
+        tr = tk.mk_track([p[0] for p in pts], [p[1] for p in pts], [float(k) for k in range(len(pts))], ts)
+    else:
+        tr = tk.mk_track_ms([p[0] for p in pts], [p[1] for p in pts], [float(k) for k in range(len(pts))], [int(round(t * unit * 1000)) for t in ts], day=day)
 
     def snap():
         return [[round(tr.getObs(k).position.getX() * 1000), round(tr.getObs(k).position.getY() * 1000),
@@ -59,11 +65,12 @@ def call(pts, ts):
         e["abs3"] = [num(v, 1) for v in a4]
         e["abs"] = [num(v, 1) for v in a1]
         e["abs2"] = [num(v, 1) for v in a2]
-        e["speed"] = [num(v * v if not (isinstance(v, float) and math.isnan(v)) else v, maxdt2) for v in s1]
-        e["speed2"] = [num(v * v if not (isinstance(v, float) and math.isnan(v)) else v, maxdt2) for v in s2]
+        sq = lambda v: v if (isinstance(v, float) and math.isnan(v)) else (v * unit) * (v * unit)
+        e["speed"] = [num(sq(v), maxdt2, tol) for v in s1]
+        e["speed2"] = [num(sq(v), maxdt2, tol) for v in s2]
         if [num(v, 1) for v in a3] != e["abs"]:
             e["abs2"] = [[3, 0, 1]]          # the stored column differs from the returned one
-        if [num(v * v if not (isinstance(v, float) and math.isnan(v)) else v, maxdt2) for v in s3] != e["speed"]:
+        if [num(sq(v), maxdt2, tol) for v in s3] != e["speed"]:
             e["speed2"] = [[3, 0, 1]]
     except (Exception, SystemExit) as ex:
         e["raised"] = True
@@ -89,6 +96,23 @@ def job_family(args):
             for g_ in gaps:
                 ts.append(ts[-1] + g_)
             out.append(call(pts, ts))
+    return out
+
+
+def job_ms(args):
+    """millisecond clocks: every walk of n legs (without the 1000-long leg) x gaps {0,1,2} ticks of 1 ms, once around 1970
+    (float clock exact: values judged) and once in 2020 (float clock noisy at that scale: NaN pattern judged)"""
+    n, first = args
+    legs = [l for l in LEGS[:6] if l != (1000, 0)]
+    out = []
+    for rest in itertools.product(legs, repeat=n - 1):
+        pts = walk((first,) + rest)
+        for gaps in itertools.product([0, 1, 2], repeat=n):
+            ts = [0]
+            for g_ in gaps:
+                ts.append(ts[-1] + g_)
+            out.append(call(pts, ts, unit=0.001, day=(1970, 1, 1), coarse=False))
+            out.append(call(pts, ts, unit=0.001, day=(2020, 6, 15), coarse=True))
     return out
 
 
@@ -119,7 +143,8 @@ def run(ctx):
                 "computed twice on every such track and on random tracks to 12 fixes (8 leg types incl. zero and 1000-long, "
                 "gaps 0-60 s); columns (speeds squared), repeat and unchanged observations judged by KinematicsTrace. "
                 "Non-trivial = distinct tracks with a repeated timestamp or a repeated position." % (mf - 1))
-    ctx.assumptions += ["legs of integer length (axis-aligned, 3-4-5, 6-8-10); integer timestamps", "speeds are compared through their squares"]
+    ctx.assumptions += ["legs of integer length (axis-aligned, 3-4-5, 6-8-10); timestamps on a lattice of whole seconds or of whole milliseconds "
+                        "(millisecond tracks dated 2020: only the NaN pattern of the speed is judged - the float clock knows a 1 ms gap to 2e-4; dated 1970: values judged to 1e-6)", "speeds are compared through their squares"]
     c = ctx.write_cfg("KIN.cfg", mc_cfg(mf))
     ctx.tlc_mc("Kinematics", c, label="Kinematics design check")
     import multiprocessing as mp
@@ -127,6 +152,9 @@ def run(ctx):
     for n in range(1, mf):
         for first in LEGS[:6]:
             jobs.append((job_family, (n, first)))
+    for n in range(1, 4 if quick else 5):          # millisecond clocks (ticks of 1 ms), around 1970 and in 2020
+        for first in LEGS[:5]:
+            jobs.append((job_ms, (n, first)))
     for k in range(16):
         jobs.append((job_random, (ctx.seed * 59 + k, 80 if quick else 8000)))
     events = []
